@@ -33,7 +33,7 @@ pub fn take_panic() -> String {
     LAST_PANIC.lock().map(|mut g| std::mem::take(&mut *g)).unwrap_or_default()
 }
 
-fn process_cpu_ns() -> u64 {
+pub fn process_cpu_ns() -> u64 {
     let mut ts = libc::timespec { tv_sec: 0, tv_nsec: 0 };
     unsafe { libc::clock_gettime(libc::CLOCK_PROCESS_CPUTIME_ID, &mut ts) };
     ts.tv_sec as u64 * 1_000_000_000 + ts.tv_nsec as u64
